@@ -61,6 +61,30 @@ def gen(ctx):
         n += 1
         cases.append(mk_case("c20m_%d" % n, [("prepare", cmd_prepare(b"p")), ("execute", cmd_execute(1, m)), ("ping", cmd_ping())],
                              ["p reply 1 %s 0" % pcols, "x all - done 0 0"]))
+    # executions of a statement that never had types bound (flag 0, or the block ends after the NULL bitmap):
+    # every pattern of NULL / long-data / inline parameters for 1..3 parameters; also after a valid first execution
+    for npar in (1, 2, 3):
+        pc = progs.cols_tok([dict(table=b"", name=b"?", type=253, flags=0)] * npar)
+        for pat in itertools.product("NLI", repeat=npar):
+            for flagbyte in (True, False):
+                for bound_first in (False, True):
+                    if bound_first and (not flagbyte or ctx.quick() and npar == 3):
+                        continue
+                    n += 1
+                    cmds = [("prepare", cmd_prepare(b"p"))]
+                    scripts = ["p reply 1 %s 0" % pc]
+                    if bound_first:
+                        cmds.append(("execute", cmd_execute(1, exec_block([False] * npar, [(253, False)] * npar, [lenenc_str(b"v")] * npar))))
+                        scripts.append("x all - done 0 0")
+                    for i, k in enumerate(pat):
+                        if k == "L":
+                            cmds.append(("longdata", cmd_long_data(1, i, b"long")))
+                    blk = exec_block([k == "N" for k in pat], None, [lenenc_str(b"in") for k in pat if k == "I"])
+                    if not flagbyte:
+                        blk = blk[:(npar + 7) // 8]
+                    cmds += [("execute", cmd_execute(1, blk)), ("ping", cmd_ping())]
+                    scripts.append("x all - done 0 0")
+                    cases.append(mk_case("c20u_%d" % n, cmds, scripts))
     # fragment ids out of order (small limit)
     for ids in ([0, 1, 2], [0, 2, 3], [5, 5, 6], [255, 0, 1], [255, 1, 2], [0, 1, 1]):
         n += 1
